@@ -555,6 +555,9 @@ def _havoc_skip(vc, L):
 
 class ZdSeekInternal(ZdBase):
     fn = 'utils:ZlibLikeBaseStreamDecompresser._seek_internal'
+    deferred = True      # z3's sequence solver does not finish the skip-loop obligations within any budget we can give it
+    note = ('contract written but NOT discharged (solver does not terminate on the re-inflate loop); used as an assumed '
+            'summary by seek(); the function is covered only by the bounded stream-program check')
     allowed_exc = ('ValueError', 'NotImplementedError', 'OSError')
     inline = ZdBase.inline + ('utils:ZlibLikeBaseStreamDecompresser.tell',)
     loops = {0: Loop(0, _loop_skip, havoc=_havoc_skip, fingerprint='self.tell() < target')}
